@@ -561,6 +561,10 @@ def getitem(interp, st, v, idx):
         for s, ok in interp.branch(st, has):
             if ok:
                 yield s, SV(cls.vt, z3.Select(s.heap.read(cls, 'val', v.z), zk))
+            elif getattr(cls, 'default', None) is not None:
+                # collections.defaultdict: a missing key is created from the factory
+                nv = cls.default(interp, s)
+                yield from ((s2, nv) for s2, _ in setitem(interp, s, v, idx, nv))
             else:
                 yield s, Raised(Exc('KeyError', (idx,)))
         return
